@@ -63,6 +63,13 @@ def build_cases(tier, seed):
     # ballots with tied positions: a tied ranking is a ranking of its own in the distribution
     wk = common.weak_profiles("quick")
     profs = profs + [c for c in wk[:: (40 if tier == "quick" else 10)] if any(len(pos) > 1 for r, _ in c[1] for pos in r)]
+    # nearly equal distributions (relative difference 1e-6 .. 1e-10): "zero exactly for profiles with the same distribution"
+    # also means non-zero for these, which a tolerance-based shortcut for "equal" profiles would get wrong
+    r1, r2, r3 = R3[9], R3[11], R3[1]
+    for big in (10 ** 6, 10 ** 10):
+        for wa, wb in ((big, big + 1), (big + 1, big), (big, big)):
+            profs.append((c3, ((r1, wa), (r2, wb))))
+        profs.append((c3, ((r1, big), (r2, big), (r3, 1))))
     _PROFS = profs
     _DISTS = [_dist(c) for c in profs]
     n = len(profs)
@@ -85,7 +92,7 @@ def build_cases(tier, seed):
     meta = {
         "family": ("quick: 45 single-type + every 4th two-type profile of " if tier == "quick" else "all of ")
                   + "Prof(Rank(3),2,{1,2,1/2})" + ("" if tier == "quick" else " + every 3rd three-type profile over Bullet(3)+Perm(3) with weights {1,2}")
-                  + " + a slice of Prof(Weak(3),2,{1,2}) containing tied positions"
+                  + " + a slice of Prof(Weak(3),2,{1,2}) containing tied positions + 8 nearly equal two/three-type profiles (weights 10^6, 10^6+1, 10^10, 10^10+1)"
                   + f" = {n} profiles; all ordered pairs x p in {PVALS} against exact rationals, all triples (triangle inequality on the cached "
                   "matrix), variants (every ballot order, condensed, all weights x2 and x1/3); BallotGraph(n) for n=2..6 against the definition; "
                   "every single ballot of Rank(n) loaded onto the graph",
